@@ -8,7 +8,9 @@
 (*                                                                         *)
 (* observation (JSON object), by `what`:                                   *)
 (*  "eval" : ast, ctx (1..3), kind ("value"|"experr"|"other"), v (encoded  *)
-(*           value, or ["N"]), pure ("T"|"F")                              *)
+(*           value, or ["N"]), truthy ("T"|"F": bool() of the value as     *)
+(*           observed, used only for values outside the modelled universe),*)
+(*           pure ("T"|"F")                                                *)
 (*  "fuzz" : text outside the grammar - kind, pure only                    *)
 (*  "skip" : ast, ctx, kind ("value"|"other"), skip ("T"|"F")              *)
 (*  "split": ast, ctx, kind, act0 / act1 (activated positions for the      *)
@@ -48,7 +50,9 @@ DecA(x) == CASE x[1] = "name"  -> Name(x[2])
              [] x[1] = "tuple" -> TupleD(DecSeq(x[2]))
              [] x[1] = "unsup" -> Unsup(x[2], DecSeq(x[3]))
 
-Outcome(o) == IF o.kind = "value" THEN [kind |-> "value", v |-> DecV(o.v)] ELSE [kind |-> o.kind]
+Outcome(o) == IF o.kind # "value" THEN [kind |-> o.kind]
+              ELSE IF DecV(o.v).t = "alien" THEN [kind |-> "alien", truthy |-> (o.truthy = "T")]
+              ELSE [kind |-> "value", v |-> DecV(o.v)]
 SeqToSet(s) == {s[k] : k \in 1..Len(s)}
 
 \* ---- the property (a false one is a VIOLATION) --------------------------
